@@ -40,6 +40,9 @@ CLAIMED = {
   "C12": ("purity as an inductive step by symbolic execution: every variable of every custom form's symbol table is set to a fresh symbolic value (arbitrary history) before the real evaluation code runs on a validated cexprtk stub; z3 shows the value at r equals the formula with explicitly bound parameters for every evaluation order/interleaving; hash-order independence by replacing the builtin set in the EAM builder with a set whose iteration order is a symbolic permutation explored path by path (all EAM targets, output must be identical on all paths; differing paths replayed with potable under different PYTHONHASHSEED values in fresh processes)",
           "for all pre-states, parameters and r the energy depends on definition and r only; for all set iteration orders one output; write-twice / build-twice / other-model-in-between / descending-order evaluation / fresh process with another hash seed give the same bytes (concrete layer over all 11 targets); shared default arguments unchanged",
           NOTE + "; .xlsx compared at cell level (container clock fields outside); the repeat/history layer is concrete (real cexprtk) and complements the symbolic inductive step", "3 C12"),
+  "C13": ("CrossHair (symbolic execution with z3) of the real FilteredConfigParser over symbolic index lists and flags: every view equals the specification filter over the unfiltered list (order preserved), and two views of one parsed file with independent settings, read in either order, each equal their own specification - 'Confirmed over all paths' required, counterexamples replayed; differential replay of every species subset through the real potable entry point against the hand-edited file",
+          "include/exclude lists of <= 3 labels (repeats, any order, unknown label, empty) over pair, EAM and Finnis-Sinclair models; two-view histories (<= 1 label each quick, <= 2 thorough); every subset of species x include/exclude x text targets (spreadsheets in thorough) through potable",
+          "labels are opaque to the filter (membership tests only), so the 4-label universes per model stand for all labels; the differential layer is concrete", "3 C13"),
   "C17": ("fault injection with a symbolic failing ordinal: every function evaluation compares its index with one symbolic integer k, the SYMX explorer splits on the z3-feasible classes of k (N+1, N discovered) through the real write()/action_tabulate code with a recording sink / real file; a z3 completeness VC shows the explored classes cover every integer k; each partial-output path is replayed with the model's concrete k",
           "for every tabulation target, every position k of the failing evaluation (pair, density, embedding, dipole, quadrupole functions) on the stated grids: nothing written and the exception propagates; no failure: whole table; large grids (size-dependent buffering) with k in a stated candidate set",
           "loop counts concrete per run (small grids exhaustive in k; large grids over a candidate set of k); failures modelled as exceptions leaving the callable; potable end-to-end runs on real files are a concrete replay layer", "3 C17"),
@@ -62,7 +65,7 @@ for p in props:
     tech, text, note, ref = CLAIMED[i]
     checks.append(dict(property_id=i, quick_cmd="./check %s --tier quick" % i, thorough_cmd="./check %s --tier thorough" % i,
                        evidence_file="evidence/%s.json" % i, replay_cmd_template="./check %s --replay {path}" % i,
-                       engine="symx", level_claimed=dict(category="model_checking", text=text, design_ref=ref),
+                       engine=("crosshair" if i in ("C13", "C14", "C15", "C16", "C20") else "symx"), level_claimed=dict(category="model_checking", text=text, design_ref=ref),
                        level_note=note, technique=tech))
   else:
     na.append(dict(property_id=i, reason=NA.get(i, PENDING) if (NA := globals().get("NA", {})) is not None else PENDING))
@@ -72,7 +75,7 @@ m = dict(version=1, setup_cmd="./setup.sh",
                     source_commits=[], add_only=True),
          engines=[dict(name="symx", path="symx/", serves_properties=[c["property_id"] for c in checks],
                        kind_free_text="symbolic execution of the repo's Python on float-subclass proxies carrying z3 terms; path forking by re-execution; z3 decides every VC"),
-                  dict(name="crosshair", path="xh/", serves_properties=[], kind_free_text="CrossHair 0.0.110 (z3) conditions over the real string/list/dict code")],
+                  dict(name="crosshair", path="xh/", serves_properties=[c["property_id"] for c in checks if c["engine"] == "crosshair"] + ["C09", "C18"], kind_free_text="CrossHair 0.0.110 (z3) conditions over the real string/list/dict code")],
          checks=checks, not_applicable=na,
          notes="See DESIGN.md. Every check regenerates its encoding from /repo's working tree at run time (VERIF_REPO overrides for scratch copies).")
 json.dump(m, open(os.path.join(HERE, "MANIFEST.json"), "w"), indent=1)
